@@ -82,9 +82,14 @@ def run_impl(case):
     belt.ready_items = LogList(lambda it: (items[it.k].__setitem__("ready", env.now), emit(("READY", it.k))))
     o_rsv, o_put, o_int, o_res, o_get = belt._do_reserve_put, belt._do_put, belt._interrupt_specific_item, belt.resume_all_move_processes, belt._do_get
 
-    def w_rsv(event):
+    def w_rsv(event, dry_run=False):
         noacc = 1 if belt.noaccumulation_mode_on else 0
         one = 1 if getattr(belt, "one_item_inserted", False) else 0
+        if dry_run:
+            # the side-effect-free admission probe (can_put): the model answers it from its own state
+            r = o_rsv(event, dry_run=True)
+            emit(("PROBE", noacc, one, 1 if r else 0))
+            return r
         n0 = len(belt.reservations_put)
         r = o_rsv(event)
         emit(("RSV", noacc, one, 1 if len(belt.reservations_put) > n0 else 0))
@@ -126,6 +131,7 @@ def run_impl(case):
         return r
     cv.set_conveyor_state = w_state
     counter = [0]
+    probe_mismatch = []
 
     def producer(gaps):
         for g in gaps:
@@ -155,7 +161,10 @@ def run_impl(case):
         if start:
             yield env.timeout(start)
         for _ in range(n):
+            cp = cv.can_put() if hasattr(cv.belt, "can_reserve_put") else None
             ev = cv.reserve_put()
+            if cp is not None and bool(cp) != bool(ev.triggered):
+                probe_mismatch.append((env.now, bool(cp), bool(ev.triggered)))
             if ev.triggered:
                 k = counter[0]; counter[0] += 1
                 it = Item("it%d" % k); it.k = k
@@ -182,7 +191,7 @@ def run_impl(case):
     now = tk(case["T"])
     if crash is None and now > last[0]:
         ops.append(("IDLE", now - last[0])); obs.append(None)
-    return dict(ops=ops, obs=obs, items=items, crash=crash, states=states,
+    return dict(ops=ops, obs=obs, items=items, crash=crash, states=states, probe_mismatch=probe_mismatch,
                 impl_params=(cv.capacity, getattr(cv, "delay", None)))
 
 
@@ -207,7 +216,7 @@ def run_batch(cases):
                 dis = (j, list(op), "impl did this", ml)
                 break
             f = ml.split("|")
-            if op[0] == "RSV" and f[0] != ("grant" if op[3] else "wait"):
+            if op[0] in ("RSV", "PROBE") and f[0] != ("grant" if op[3] else "wait"):
                 dis = (j, list(op), "admission outcome impl=%s" % ("grant" if op[3] else "wait"), "model=" + f[0])
                 break
             if ob is not None and (f[1], f[2]) != ob:
@@ -235,6 +244,8 @@ def oracle(case, r):
     if crash:
         V.append(("C12", "crash", "run raised " + crash))
         return V
+    for (t, cp, granted) in r.get("probe_mismatch", [])[:1]:
+        V.append(("C12", "probe", "can_put() = %s at %s but a reservation issued in the same instant was %s" % (cp, t, "granted" if granted else "not granted")))
     ids = sorted(i for i in items if "put" in items[i])
     ids.sort(key=lambda i: (items[i]["put"], i))
     outs = [i for i in ids if "out" in items[i]]
